@@ -24,14 +24,16 @@ import (
 
 	"github.com/robfig/soy/ast"
 	"github.com/robfig/soy/parse"
+	"github.com/robfig/soy/soymsg"
 	"soyverif/internal/hx"
 )
 
 func init() { props["C17"] = runC17 }
 
 type c17Case struct {
-	Kind string `json:"kind"` // "expr" | "print"
+	Kind string `json:"kind"` // "expr" | "print" | "msg"
 	Src  string `json:"src"`
+	Src2 string `json:"src2,omitempty"` // msg: the second print command
 }
 
 // real parser, panics reported as class "crash"
@@ -146,7 +148,7 @@ func runC17(e *env) {
 						return atoms[g.r.Intn(len(atoms))]
 					})
 					st := &c17Style{r: g.r, redundant: red, tight: g.r.Chance(30)}
-					add(c17Case{"expr", st.src(n)}, "expr:matrix", false)
+					add(c17Case{Kind: "expr", Src: st.src(n)}, "expr:matrix", false)
 				}
 			}
 		}
@@ -161,9 +163,9 @@ func runC17(e *env) {
 		if g.wild {
 			h = "expr:random-wild-literals"
 		}
-		add(c17Case{"expr", src}, h, false)
+		add(c17Case{Kind: "expr", Src: src}, h, false)
 		if i%5 == 0 {
-			add(c17Case{"expr", c17Mutate(g.r, src)}, "expr:malformed", true)
+			add(c17Case{Kind: "expr", Src: c17Mutate(g.r, src)}, "expr:malformed", true)
 		}
 	}
 	// 3. print commands with directives
@@ -175,9 +177,42 @@ func runC17(e *env) {
 		if g.r.Chance(40) || !c17ImplicitOK(body) {
 			src = "{print " + body + "}"
 		}
-		add(c17Case{"print", src}, "print", false)
+		add(c17Case{Kind: "print", Src: src}, "print", false)
 	}
 	flush()
+	// 4. the message extractor identifies placeholders by the printed text: pairs of print
+	//    commands as the two placeholders of one {msg}
+	for i := 0; i < 1200*e.scale; i++ {
+		st := &c17Style{r: g.r, redundant: []int{0, 20}[g.r.Intn(2)], tight: g.r.Chance(30)}
+		n := g.node(1 + g.r.Intn(3))
+		if g.r.Chance(50) { // data references dominate real placeholders, and share base names
+			n = &c17Node{K: "ref", S: g.pick(c17Idents)}
+			for j, k := 0, g.r.Intn(3); j < k; j++ {
+				n.Acc = append(n.Acc, c17Acc{Kind: "key", NS: g.r.Chance(20), Text: g.pick(c17Idents)})
+			}
+		}
+		dirs := g.directives(st, 1)
+		mk := func(st *c17Style) string {
+			body := st.src(n) + dirs
+			if !c17ImplicitOK(body) {
+				return "{print " + body + "}"
+			}
+			return "{" + body + "}"
+		}
+		src1 := mk(st)
+		var src2, how string
+		switch g.r.Intn(5) {
+		case 0:
+			src2, how = src1, "identical"
+		case 1: // the same tree written with other spacing / redundant parentheses
+			src2, how = mk(&c17Style{r: g.r, redundant: 40, tight: !st.tight, sloppy: true}), "respaced"
+		case 2, 3:
+			src2, how = c17FlipCase(g.r, src1), "case-flipped"
+		default:
+			src2, how = c17Mutate(g.r, src1), "mutated"
+		}
+		c17CheckMsg(e, c17Case{Kind: "msg", Src: src1, Src2: src2}, "msg:"+how)
+	}
 	for _, k := range hx.SortedKeys(g.feats) {
 		e.res.Histogram["construct:"+k] = g.feats[k]
 	}
@@ -360,6 +395,75 @@ func c17Oracle(e *env, b *c17Pending) {
 // c17FindingKey: the key of the recorded finding whose trigger holds on this tree ("" if none).
 func c17FindingKey(n ast.Node) string { return "" }
 
+// c17CheckMsg: two print commands as the placeholders of one message.  They must get the
+// same placeholder name exactly when they are the same print command (trees equal up to
+// positions), and every name must lead back (MsgNode.Placeholder) to a node with that tree.
+func c17CheckMsg(e *env, c c17Case, hist string) {
+	if c17Unsafe(strings.TrimSuffix(c.Src, "}")) || c17Unsafe(strings.TrimSuffix(c.Src2, "}")) {
+		e.res.Histogram["skipped:unsafe-for-the-pinned-scanner"]++
+		return
+	}
+	n1, c1 := c17ParsePrint(c.Src)
+	n2, c2 := c17ParsePrint(c.Src2)
+	if c1 != "ok" || c2 != "ok" {
+		e.res.Count("msg:"+c.Src+"|"+c.Src2, false, hist+":not-two-print-commands")
+		return
+	}
+	t1 := c17Strip(nodeSexp(n1, newIDTable()))
+	t2 := c17Strip(nodeSexp(n2, newIDTable()))
+	var msg *ast.MsgNode
+	func() {
+		defer func() { recover() }()
+		f, err := parse.SoyFile("", `{msg desc=""}`+c.Src+` and `+c.Src2+`{/msg}`)
+		if err == nil && len(f.Body) == 1 {
+			if m, ok := f.Body[0].(*ast.MsgNode); ok {
+				soymsg.SetPlaceholdersAndID(m)
+				msg = m
+			}
+		}
+	}()
+	if msg == nil {
+		e.res.Count("msg:"+c.Src+"|"+c.Src2, false, hist+":message-rejected")
+		return
+	}
+	var phs []*ast.MsgPlaceholderNode
+	for _, ch := range msg.Body.Children() {
+		if ph, ok := ch.(*ast.MsgPlaceholderNode); ok {
+			phs = append(phs, ph)
+		}
+	}
+	if len(phs) != 2 {
+		e.res.Count("msg:"+c.Src+"|"+c.Src2, false, hist+":not-two-placeholders")
+		return
+	}
+	same := t1 == t2
+	cls := "different-trees"
+	if same {
+		cls = "same-tree"
+	}
+	e.res.Count("msg:"+c.Src+"|"+c.Src2, true, hist+":"+cls)
+	if (phs[0].Name == phs[1].Name) != same {
+		e.res.Fail(hx.Violation{Kind: "oracle", What: "two placeholders of a message get the same name although they are different print commands, or different names although they are the same", Case: c,
+			Expected: map[string]interface{}{"same_tree": same, "tree1": t1, "tree2": t2},
+			Observed: map[string]string{"name1": phs[0].Name, "name2": phs[1].Name, "printed1": phs[0].Body.String(), "printed2": phs[1].Body.String(), "placeholder_string": soymsg.PlaceholderString(msg)}}, "")
+		return
+	}
+	for i, ph := range phs {
+		rep := msg.Placeholder(ph.Name)
+		want := []string{t1, t2}[i]
+		got := ""
+		if rep != nil {
+			got = c17Strip(nodeSexp(rep.Body, newIDTable()))
+		}
+		if got != want {
+			e.res.Fail(hx.Violation{Kind: "oracle", What: "the placeholder found under a placeholder's name is a different print command", Case: c,
+				Expected: want, Observed: map[string]string{"name": ph.Name, "found": got}}, "")
+			return
+		}
+	}
+	e.res.Histogram["oracle:placeholders-identified-by-tree"]++
+}
+
 func c17Replay(e *env) {
 	bs, err := os.ReadFile(e.replay)
 	if err != nil {
@@ -373,6 +477,10 @@ func c17Replay(e *env) {
 		e.res.Note("replay file has no C17 case: %v", err)
 		return
 	}
-	c17Check(e, []c17Pending{{c: rp.Case, hist: "replay"}})
+	if rp.Case.Kind == "msg" {
+		c17CheckMsg(e, rp.Case, "replay")
+	} else {
+		c17Check(e, []c17Pending{{c: rp.Case, hist: "replay"}})
+	}
 	e.res.Note("replayed %s", fmt.Sprintf("%q", rp.Case.Src))
 }
